@@ -10,7 +10,9 @@ proof gate (coq/Props/C10.v: weighted-automaton model of MPOGraph.from_terms, Mo
 import copy
 import os
 
-import numpy as np
+for _v in ('OMP_NUM_THREADS', 'OPENBLAS_NUM_THREADS', 'MKL_NUM_THREADS'):
+    os.environ.setdefault(_v, '1')
+import numpy as np  # noqa: E402
 
 import common
 import c10_oracle as O
@@ -443,8 +445,8 @@ def gen_predefined(rng, models, per_class):
                 c = {'kind': 'predefined', 'module': modname, 'cls': cls, 'params': params, 'family': 'P%d' % fid,
                      'variant': str(cv.get('conserve')), 'nwin': 2}
                 L = params['L']
-                if not infinite and rng.random() < 0.5:
-                    c['segment'] = [1, rng.choice([2, L - 1])]
+                if rng.random() < 0.5:
+                    c['segment'] = 'auto'
                 cases.append(c)
     return cases
 
@@ -636,9 +638,10 @@ def check_case(ctx, case, r, fam_store):
     cmp('H_enlarged_bond', Href_bond, what='H_bond after enlarge_mps_unit_cell(2)')
     if r.get('trivial_charges'):
         cmp('H_group', Href, what='MPO after group_sites(2)')
-        cmp('H_group_bond', Href_bond, what='H_bond after group_sites(2)')
+        if finite:      # (on a window of an infinite system the bonds of grouped sites cut through the edge groups)
+            cmp('H_group_bond', Href_bond, what='H_bond after group_sites(2)')
     else:
-        for nm in ('H_group', 'H_group_bond'):
+        for nm in ('H_group', 'H_group_bond') if finite else ('H_group',):
             if nm in mats and hermitian and mats[nm].shape == Href.shape:
                 ref = Href if nm == 'H_group' else Href_bond
                 if maxdiff(mats[nm], mats[nm].conj().T) > tol:
@@ -690,6 +693,8 @@ def check_case(ctx, case, r, fam_store):
             problems.append((key, '%s differs from the reference operator by %.3e%s' % (nm, d, expl)))
     # segment
     seg = (case.get('spec') or case).get('segment')
+    if seg == 'auto':
+        seg = r.get('segment')
     if 'H_segment' in mats and seg is not None:
         a, b = seg
         geo_s = O.Geometry(r, lo=a, hi=b)
@@ -718,7 +723,7 @@ def check_case(ctx, case, r, fam_store):
                     problems.append(('C10:H_segment_bond', 'H_bond of extract_segment(%d, %d) differs by %.3e' % (a, b, d)))
     # hermiticity
     if 'is_hermitian' in r and float(np.max(np.abs(Href))) > 1e-6:
-        if hermitian and not r['is_hermitian']:
+        if hermitian and finite and not r['is_hermitian']:
             problems.append(('C10:is_hermitian', 'terms are Hermitian but H_MPO.is_hermitian() is False'))
         if (not hermitian) and herm_defect > 1e-3 * scale and r['is_hermitian']:
             problems.append(('C10:is_hermitian', 'operator is not Hermitian (defect %.2e) but H_MPO.is_hermitian() is True' % herm_defect))
@@ -728,6 +733,10 @@ def check_case(ctx, case, r, fam_store):
         if nm == 'H_mpo_from_bond' and 'chinfo' in e and all(len(set(k for _, k in t[2])) == 1 for t in ([] if not is_spec else
                                                               O.user_level_terms(case['spec'], geo))) and (is_spec or not (r.get('coupling') or r.get('multi'))):
             key = 'C10:calc_H_MPO_from_bond:no-two-site-coupling'
+        if nm == 'H_ed_from_H_mpo' and 'lattice incompatible with H_MPO.sites' in e and not r.get('trivial_shift', True):
+            key = 'C10:ExactDiag.from_H_mpo:nontrivial-charge-shift'
+        if nm == 'is_hermitian' and 'incompatible LegCharge' in e and not r.get('trivial_shift', True) and not finite:
+            key = 'C10:MPO.dagger:infinite-nontrivial-charge-shift'
         if nm == 'H_bond_from_plain_MPOModel' and "no attribute 'explicit_plus_hc'" in e:
             key = 'C10:MPOModel.calc_H_bond_from_MPO:explicit_plus_hc-attribute'
         problems.append((key, 'representation %s raised %s' % (nm, e)))
